@@ -46,7 +46,9 @@ RULE = (
     "protocol-relative, userinfo). Random part: sequences of 5..40 adds over realistic labels with upper "
     "case, padding white space, punycode and IDN spellings, invalid xn-- labels; queries derived "
     "from the adds (self, parents, children, siblings, look-alikes, respelled labels) plus "
-    "host-less URLs. Non-trivial = the sequence contains a pruning add (a domain added after one "
+    "host-less URLs, plus 'torture' query strings (brackets, white space in front, newline in the scheme, "
+    "svn+ssh://, letters://, 64/65-letter schemes, several @, non-digit ports ...) that only the model (its own "
+    "parser) and the implementation see, never the oracle. Query URLs travel to the model as strings. Non-trivial = the sequence contains a pruning add (a domain added after one "
     "of its subdomains), an ignored add (a subdomain added after its domain) or a duplicate add; "
     "distinct = distinct add sequence."
 )
@@ -57,7 +59,7 @@ EXHAUSTIVE = {
 TRUSTED = [
     "Lean 4 kernel; axioms of every listed theorem audited to be within {propext, Classical.choice, Quot.sound}",
     "hand-written Lean models UralModel/Model/TrieDict.lean (set_and_prune_if_shorter, longest_matching_prefix_value, prefixes, __len__) and UralModel/Model/HostnameTrieSet.lean (tokenize_hostname, join_hostname, add, match, __len__, __iter__), tied to the code by differential execution of whole histories (this run)",
-    "safe_urlsplit(url).hostname (PROTOCOL_RE + CPython urllib.parse.urlsplit) is NOT modelled: the model's match receives the hostname computed by the real parser; the oracle obtains the hostname independently with urllib.parse.urlsplit",
+    "safe_urlsplit(url).hostname (PROTOCOL_RE + CPython urllib.parse.urlsplit + SplitResult.hostname) is the shared Lean parser model (Py/UrlSplit.lean, Py/UrlAccessors.lean, Model/TldUrl.lean): the model's match receives the URL STRING and parses it itself (HostnameTrieSet.matchUrl), the hostnames it extracts are compared with the real parser's on every case; the parser model is compared with CPython, not proved equal to it; strings outside its stated domain (a non-ASCII character that str.lower changes, the NFKC check) fall back to the hostname computed by the real parser; the oracle obtains the hostname independently with urllib.parse.urlsplit",
     "attempt_to_decode_idna (CPython idna codec) is an abstract parameter `puny` of the model; the driver uses the table of the real codec's answers on the labels of the case; the one law the theorems assume (PunyLaws.decoded: the result is the input or no longer starts with xn--) is evaluated by the model on that table on every case and must be true",
     "is_special_host is an abstract parameter `special` (table from the real function); the property excludes special hosts (IP literals, localhost), generators never produce them",
     "str.strip / str.lower are modelled exactly on ASCII and on the 29 isspace code points; non-ASCII letters in the generators are lower-case already (lower() is the identity on them)",
